@@ -241,8 +241,8 @@ def _r1(ctx):
         a parameter, an attribute, a builtin applied to those (reversed(..), sorted(..), x[1:]) is visible"""
         if b_[0] in ("param", "attr", "global", "sub", "list", "tuple"):
             return False
-        if b_[0] == "call" and b_[1][0] == "global" and hasattr(builtins, b_[1][1]):
-            return any(opaque(x) for x in b_[2])
+        if b_[0] == "call" and b_[1][0] == "global" and b_[1][1] in ("reversed", "sorted", "filter", "list", "tuple", "set", "frozenset", "enumerate", "zip", "iter"):
+            return any(opaque(x) for x in b_[2])          # a visible re-ordering / selection / copy of its arguments
         return True
     b = match(("call", ("global", "enumerate"), (V("z"),), ()), it)
     srcs = [x for a in seqs_of(b["z"]) for x in sources(a)] if b else []
@@ -321,6 +321,17 @@ def _r1(ctx):
     lo = ("cmp", ("Gt",), (("attr", r, "temp_min"), ("const", 0)))
     hi = ("cmp", ("Gt",), (("attr", r, "temp_max"), ("const", 0)))
     conds = {x for x in walk(elt) if isinstance(x, tuple) and x and x[0] == "cmp"}
+    # a comparison that still mentions a comprehension variable was not traced back to the reaction: the construction is not
+    # understood (not evidence of a wrong test)
+    def free_bvs(c):
+        bvs = {x for x in walk(c) if isinstance(x, tuple) and len(x) == 3 and x[0] == "bv"}
+        bound = {y for x in walk(c) if isinstance(x, tuple) and len(x) == 4 and x[0] == "comp" for g_ in x[3] for y in walk(g_[0]) if isinstance(y, tuple) and len(y) == 3 and y[0] == "bv"}
+        return bvs - bound
+    loose = [c for c in conds if c not in (lo, hi) and free_bvs(c)]
+    if loose:
+        ctx.unrec("R1", "_assign_rates:presence-tests", (FILE, rets[0].line), "cannot trace the condition(s) that shape the statement back to the reaction of the same position: "
+                  + ", ".join(sorted(show(c) for c in loose))[:160])
+        return
     ctx.check(conds == {lo, hi}, "R1", "_assign_rates:presence-tests", (FILE, rets[0].line),
               "a bound is present iff it is > 0 (temp_min > 0, temp_max > 0 of the same reaction); no other condition shapes the statement",
               expected="r.temp_min > 0, r.temp_max > 0", found=", ".join(sorted(show(c) for c in conds)))
@@ -1068,4 +1079,28 @@ BENIGN += [
     {"name": "fex-k-value-initialised", "file": FEX, "old": _FEX_K, "new": "    realtype k[NREACTIONS] = {};\n    EvalRates(k, y, u_data);"},
     {"name": "fex-k-memset", "file": FEX, "old": _FEX_K, "new": "    realtype k[NREACTIONS];\n    memset(k, 0, sizeof(k));\n    EvalRates(k, y, u_data);"},
     {"name": "kernel-k-fill-in-loop", "file": FEX, "old": _KERNEL_K, "new": "        realtype k[NREACTIONS];\n        std::fill(k, k + NREACTIONS, 0.0);\n        EvalRates(k, y_cur, udata);"},
+]
+# ---- wave 2: other constructions of the guard list
+_TR = '        tranges = [\n            "".join([lt, " && " if lt and ut else "", ut])\n            for lt, ut in zip(ltranges, utranges)\n        ]\n'
+_WINDOW_HELPER = ('    @staticmethod\n    def _window(r):\n        lt = f"Tgas>={r.temp_min}" if r.temp_min > 0 else ""\n        ut = f"Tgas<{r.temp_max}" if r.temp_max > 0 else ""\n'
+                  '        return "".join([lt, " && " if lt and ut else "", ut])\n\n    def _assign_rates(\n')
+
+
+def _bounds_pairs(lo_test="lo > 0", hi_fmt="Tgas<{hi}"):
+    return ('        bounds = [(r.temp_min, r.temp_max) for r in reactions]\n        tranges = [\n            "".join([f"Tgas>={lo}" if ' + lo_test + ' else "", " && " if lo > 0 and hi > 0 else "", f"' + hi_fmt + '" if hi > 0 else ""])\n'
+            '            for lo, hi in bounds\n        ]\n')
+
+
+MUTANTS += [
+    {"name": "bounds-pairs-presence-ge-zero", "file": T, "old": "        " + _LT + "\n        " + _UT + "\n" + _TR, "new": _bounds_pairs(lo_test="lo >= 0"), "rules": ["R1"]},
+    {"name": "bounds-pairs-upper-inclusive", "file": T, "old": "        " + _LT + "\n        " + _UT + "\n" + _TR, "new": _bounds_pairs(hi_fmt="Tgas<={hi}"), "rules": ["R1"]},
+    {"name": "window-helper-mapped-over-sorted", "edits": [{"file": T, "old": "    def _assign_rates(\n", "new": _WINDOW_HELPER},
+                                                           {"file": T, "old": "        " + _LT + "\n        " + _UT + "\n" + _TR, "new": "        tranges = list(map(self._window, sorted(reactions, key=lambda x: x.temp_min)))\n"}], "rules": ["R1"]},
+]
+BENIGN += [
+    {"name": "bounds-as-pairs-first", "file": T, "old": "        " + _LT + "\n        " + _UT + "\n" + _TR, "new": _bounds_pairs()},
+    {"name": "window-helper-per-reaction-mapped", "edits": [{"file": T, "old": "    def _assign_rates(\n", "new": _WINDOW_HELPER},
+                                                            {"file": T, "old": "        " + _LT + "\n        " + _UT + "\n" + _TR, "new": "        tranges = list(map(self._window, reactions))\n"}]},
+    {"name": "guard-joined-through-filtering-generator", "file": T, "old": "        " + _LT + "\n        " + _UT + "\n" + _TR,
+     "new": '        tranges = [\n            " && ".join(c for c in (f"Tgas>={r.temp_min}" if r.temp_min > 0 else "", f"Tgas<{r.temp_max}" if r.temp_max > 0 else "") if c)\n            for r in reactions\n        ]\n'},
 ]
